@@ -7,11 +7,21 @@ ALL = ["C%02d" % i for i in range(1, 21)]
 
 # id -> (category, technique, level text, level note, design_ref)
 CHECKS = {
+ "C03": ("model_checking",
+         "exhaustive enumeration of commit slot assignments vs. a math/big reference tally; explicit-state BFS over vote arrival orders on the real VoteSet vs. a plain-map reference; the same commits through the real ValidateBlock and fast-sync poolRoutine call sites",
+         "(1) VerifyCommit: every assignment of 16 slot variants (absent, nil, A, B, other hash/parts, H+-1, R+1, prevote-typed, other chain id, corrupted/transplanted signature, wrong index/address/size, another validator's vote) x claimed id in {A,B,nil} for n=1..4 validators over power vectors from {1,2,3,5}^n plus boundary vectors with total just below 2^62; accept iff 3*tally > 2*total in math/big for correctly signed precommits for exactly the claimed id in one round. (2) VoteSet: BFS over arrival orders of valid votes, re-signed duplicates, 10-14 kinds of invalid votes, nil pointers and peer +2/3 claims on a fresh real VoteSet per history (depth 3-6 quick, up to 9 thorough): result class, round sum, per-block tallies, maj23 (at most one, first to cross), HasTwoThirdsAny/HasAll, evidence for conflicts, MakeCommit accepted by VerifyCommit. (3) the commits of (1) through BlockExecutor.ValidateBlock on height-2 blocks and through the real BlockchainReactor.poolRoutine (5 fast-sync scenarios incl. recover blocks).",
+         "ed25519 and canonical JSON trusted; n <= 4; total power < 2^62 as the property states; reconstructLastCommit not exercised.",
+         "5/C03"),
  "C04": ("fault_enumeration",
          "exhaustive enumeration of signing-request histories x every crash point (every file-system operation boundary, torn last write, power-loss of unsynced data) of the real FilePV over an in-memory file-system shim",
          "All histories of <= 2 requests over the full 120-request alphabet (SignVote/SignProposal/SignVoteWithoutSave x heights {1,2} x rounds {0,1} x steps x blocks {A,B,nil} x 2 timestamps) plus depth 3 on a reduced alphabet (thorough: depth 3 on the full alphabet, 1.7M histories / 22.7M crash scenarios); for each history a crash at every FS operation boundary inside and between calls, torn last write, and loss of unsynced data; the signer is reloaded with LoadFilePV from the surviving bytes and the remaining requests are issued. Oracle over everything ever released without error across process lifetimes: at most one distinct payload per (height, round, step) modulo timestamp, no release below the maximum released HRS, reload never fails on a file the code wrote, a signature is never visible to the caller before its record is durable.",
          "File-system model: rename/create/remove atomic and durable on return; directory-entry durability without a directory fsync is not modelled. The os/ioutil calls of WriteFileAtomic, LoadFilePV and the rest of priv_validator.go/os.go are redirected to the shim by a generator that re-instruments the CURRENT files on every build and fails loudly if the functions changed shape. One crash per history; sequential requests.",
          "5/C04"),
+ "C05": ("model_checking",
+         "exhaustive enumeration of blocks x execution paths (16 replicas per block) + all permutations of recorded state-update sequences and map orders + preemption-bounded exhaustive exploration (schedx) of the parallel signature pre-check",
+         "(1) every block of <= 2 (quick) / <= 3 (thorough) transactions over a 13/21-letter alphabet (transfers, token transfers, creations, calls, reverting calls, self-destruct, confidential in/out/transfer, bad nonces, underfunded) on 2 prior states, executed on 16 replicas: both storage modes x proposer / validator / after- and before-another-proposal / fast-sync / warm-identical cache / warm-twin cache / order-recorder; every listed result (state hash, receipt hash, gas, receipts, logs, bloom, outputs, key images, candidates, persisted stores, AllAccounts) must be identical and CheckBlock must accept what PreRunBlock produced; 36 cases re-run in another process. (2) every permutation of each recorded TryUpdate/TryDelete segment (<= 7 objects) replayed on fresh tries, every iteration and insertion order of 57 token maps through the ser map writer. (3) verifyTxsOnProcess with 2,3,4 workers (children under taskset), one invalid signature or black-listed sender at each position (thorough: pairs), cold/warm/mixed caches: ALL interleavings with <= 2 preemptions; accept/reject and stored senders compared with a sequential reference.",
+         "No system contracts / WASM; confidential and upgrade transactions are outside the schedule exploration (need application state); unsynchronised accesses are not seen by the cooperative scheduler (no -race pass).",
+         "5/C05"),
  "C08": ("exploration",
          "bounded-exhaustive input enumeration: every single and pairwise field mutation x signature (r,s,v) boundary product x chain parameter x sender-cache state for every account-based transaction kind; exhaustive wallet x sub-address recognition matrix, key-set spend product and field-binding mutations for confidential transactions (real curve arithmetic)",
          "Account side: for Transaction (transfer/creation), TokenTransaction, UTXOTransaction with account input (coin/token), confidential inputs with account-paid fee, ContractUpgradeTx and MultiSignAccountTx: sign once with a fixed key, then every field mutation from {+1, zero, other, append byte, structural} singly and in pairs, every (r,s,v) from a 7x7x14 boundary set (0,1,N-1,N,N+1,valid,N-s; v incl. 27/28, 35+2c.., wrap values), verifying chain parameter in {c,c+1,0}, cache states {cold, warmed before mutation, warmed through the real mempool/StoreFrom twin}; oracle: recovered sender differs from the original or an error; high-s/out-of-range refused; transaction hash exact and injective over signatures. Confidential side: 3 wallets x 3 sub-addresses + outsider: outputs recognised/decoded by exactly the destination; 27 key sets x R-key x key-image x ring size {1,3} spends through CheckBasic: only the owner's key set is accepted; every single (thorough: pairwise) mutation of inputs, outputs, token, R-keys, fee, extra, account signature changes the ring-signature message and invalidates the authorisation. 257k cases quick / 5.4M thorough, exhaustive within the bounds.",
@@ -37,16 +47,41 @@ CHECKS = {
          "For heights 1..3, rounds 0..1 and every position of the correct node, the puppet proposer applies each of 65 corruptions (every header field, 19 previous-commit corruptions, 13 evidence corruptions, data-section and nil-component corruptions; all unordered pairs at height 2 round 0, thorough: everywhere) to the honest block, re-deriving dependent hashes, and proposes it to the REAL state machine. Oracle: a non-nil prevote/precommit only for blocks that pass the repository's ValidateBlock AND an independent predicate written from the property statement (math/big commit tally); the two oracles must agree on every block; then the other validators vote and the committed block must apply (no panic, no kill request, status advances). Right level: the quantifier is over proposer-constructible blocks, a finite product once fields take boundary values.",
          "Application-level validity is kept true by a trivial in-memory app (consensus-level validation only); 4 equal validators; recover mode never triggered; restart after a failed apply is C13's subject.",
          "5/C02"),
+ "C11": ("exploration",
+         "bounded-exhaustive value enumeration for every registered and storage type (round trip, re-encode, map orders) + exhaustive hostile-input enumeration (every truncation, byte substitution, item-tree node replacement, prefix swap, all byte strings of length <= 3) into every decoder entry point, in worker subprocesses under RLIMIT_AS",
+         "115 root types (49 registered concrete + 15 interface types from the ser registry, 39 unregistered storage/wire types, 12 primitive shapes) x 465 (type, entry point) pairs (DecodeBytes, DecodeBytesWithType, DecodeReader(+WithType) with limit, the four reactor decodeMsg, WALDecoder). Values: every field over a boundary domain with <= 2 (quick) / <= 3 (thorough) fields off default, interface fields over all registered implementers, token maps with <= 4 entries in every insertion order, real signed and confidential transactions: dec(enc(v))==v, enc(dec(enc(v)))==enc(v), equal values encode equally. Hostile: every encoding truncated at every offset, every offset substituted with 16 bytes, every item-tree node replaced by 28 hostile items with recomputed lengths, every type prefix swapped, every byte string of length <= 3: value or error, no panic, no process death, allocation <= 1 MiB + 2048*len(input). 10M decodes quick / 141M thorough.",
+         "Decoders are not required to reject non-canonical input (not in the statement); the unlimited ser.Decode on a stream (documented unsafe), JSON codec and unlinked rpc/wallet types are outside.",
+         "5/C11"),
  "C12": ("model_checking",
          "exhaustive single-field perturbation of blocks (pair oracle: block hash, part-set header) + explicit-state BFS over all delivery sequences of genuine and forged parts into the real PartSet + exhaustive Merkle proof enumeration",
          "(A) 42 base blocks (heights 1..3, 0..4 transactions incl. one confidential, 0..2 evidence items, real signed LastCommit) x every single perturbation of every header field, transaction (content, order, duplication), evidence item and LastCommit slot (thorough: all pairs): different content must give a different (Block.Hash, MakePartSet(sz).Header()) pair, equal content an equal pair; Vote.SignBytes injective over all ids. (B) opx BFS over all delivery sequences of the genuine parts and ~35 forgeries per index (bytes, index incl. negative/MaxInt, proof aunts, parts of other blocks/part sizes) into NewPartSetFromHeader, parts travelling through the wire codec, all orders up to 6 (quick) / 8 (thorough) parts; completed sets are read back, decoded and stored/loaded through a real BlockStore. (C) SimpleProof.Verify for all (index,total) <= 9 / 16 with every single-aunt tamper.",
          "keccak-256 treated as collision-free on the enumerated inputs; confidential inputs (rings) not enumerated; which error value AddPart returns is not judged.",
          "5/C12"),
+ "C17": ("model_checking",
+         "exhaustive enumeration of validator sets x rotation compositions vs. an independent weighted round-robin reference; explicit-state BFS over set operations and updateStatus chains; in-simulation comparison of real nodes stepping vs skipping rounds",
+         "(1) path independence: 780+258 (thorough 9,330+2,800) validator sets (<= 4/5 validators, powers incl. saturating values) x every composition of k <= 7 (9) increments from every state after 0..6 (8) single steps; (2) proportionality over 3 periods with every sliding window and step-by-step equality with an independent smooth weighted round-robin; (3) identity: all input permutations, opx BFS depth 6 over Add/Update/Remove/IncrementAccum/Copy/Save+Load, updateStatus with every order of the same update list and on reloaded status; (4) saturation vs math/big clipped arithmetic; (5) real ConsensusState nodes reaching (h,r) by stepping, by skipping and by skip-then-step must name the same proposer and accept its proposal.",
+         "Sets of <= 5-6 validators, k <= 9; powers > 0, no duplicate addresses. One known finding: the batch form IncrementAccum(n) differs from n single steps (after fix 67c60c9 only used for the fault-evidence proposer).",
+         "5/C17"),
+ "C18": ("model_checking",
+         "deviation-bounded exhaustive exploration (devx) of raw-connection read answers under SecretConnection write/read size products; exhaustive handshake tamper enumeration against the real MakeSecretConnection and the production addPeer path; explicit-state BFS over MConnection packetisation events",
+         "stream: write sizes {1,2,1023,32767,32768,32769,65537} x read buffer sizes and pairs x every execution with <= 2 (3) short reads at any Read call: bytes read == bytes written, in order. handshake: 5,996 (17,988) tampers (ephemeral-key flips, replayed/reflected auth/session/ephemeral messages incl. live loop-back, truncation at every byte, raw and plaintext auth-frame flips, hostile frame headers, wrong signer/key/challenge, nil, split frames): error on the tampered side; production path addInboundPeerWithConfig -> addPeer must bind the NodeInfo key to the authenticated key. mconn: opx BFS depth 6 (7) over Send/sendPacketMsg/flush/deliver events on 2-3 channels with priority mixes and message sizes around the packet size, real recvRoutine on a wire that reports blocking: per channel delivered == sent, whole and in order. stack: MConnection over SecretConnection under short raw reads.",
+         "Compiled-in frame mode only (as the property says); sendRoutine's select/timer glue, ping/pong and flow-rate throttling not exercised (timers set to hours).",
+         "5/C18"),
  "C19": ("model_checking",
          "explicit-state BFS over operation sequences on every real backend (memdb, goleveldb, bolt, badger, fsdb, prefix views) vs. a sorted-map reference model, 184 observations per state",
          "16 searches (11 quick): all sequences of Set/SetSync/Put, Delete/DeleteSync/Del, batch Set/Delete/Write/WriteSync/Commit/Reset/abandon and Close+reopen over the key shapes {nil, '', a, a\\x00, a\\xff, b, \\xff, \\xff\\xff}, depth 3-5 depending on backend cost; after every history Get/Has/Load/Exist of all 8 keys and the full key/value stream of Iterator and ReverseIterator for all 64 (start,end) pairs, NewIteratorWithPrefix and IteratePrefix for every prefix are compared with the model; batches must be invisible until written and then entirely visible in their own order.",
          "db_counts=1 (default); cleveldb does not compile under its build tag and is left out; empty values and the error value for a missing key are excluded as the property says; two recorded known findings (bolt/badger cannot store the empty key).",
          "5/C19"),
+ "C13": ("fault_enumeration",
+         "exhaustive crash-state enumeration: every prefix of the global write log of every 1-3 block history (+ every order ideal of the concurrent SaveBlock writers, torn undo-log appends, power-loss of unsynced suffixes) materialised and restarted through the mirrored node start-up recipe; exhaustive pruning-configuration enumeration",
+         "Crash half: all 97 (thorough 171) valid histories of 1-3 blocks over the kinds transfer / confidential outputs / confidential spend / evidence / validator change (/ contract) in both storage modes on logging devices (8 databases + the flat-state undo log file). Process-crash tier: every prefix of the write log, every reachable set of completed units of the three concurrent SaveBlock goroutines, torn undo-log appends at structural (thorough: all) byte offsets; power-loss tier (thorough): per prefix one or two devices lose a suffix of <= 4 unsynced units. On every crash state the start-up recipe of node.NewNode (mirrored, fingerprinted) is run: it must not fail; block store, state root/hash/AllAccounts, key images, output index, tx index, consensus status and validator/parameter records must all reflect the SAME prefix h >= acknowledged blocks; then the remaining blocks are committed and the final state must equal the crash-free run. Pruning half: chain length 1..8 x retention 1..10 x validator-change height x (once|twice) for both pruners: termination and loadability of every record needed for the retained heights.",
+         "Write units atomic per device (db_counts=1); undo log only truncated to 0 or appended; one crash per history; node.go's recipe is mirrored in minichain (fingerprint check adds an assumption if node.go changes). Known findings: output-index half of the SaveBlock/SaveUtxo window and four power-loss flush-ordering keys.",
+         "5/C13"),
+ "C14": ("fault_enumeration",
+         "exhaustive enumeration of WAL write histories on the real baseWAL/autofile.Group (incl. rotation ticks, restarts, crash = head buffer lost) and, per byte image, of every truncation offset and every single-byte alteration, read back through the real GroupReader/WALDecoder/SearchForEndHeight in worker subprocesses",
+         "Part 1: all histories to depth 4 (full 19-event alphabet) / 5 (core) / 3 (oversize) quick, 5/7/4 thorough, over Write/WriteSync of every record kind the node writes (vote, proposal, parts of 100 B/32 KiB/45 KiB/max size, timeout, step, ascending EndHeight markers), explicit rotation ticks with head limit 1, clean restarts; each read back twice (crash: files as on disk with the head buffer lost; clean stop). Part 2: for 724 (thorough 12,960) byte-deterministic images every truncation offset and every single-byte alteration (4 values) of every file: 1.8M / 30.7M damaged variants, 6.7M / 132M marker searches. Oracle: messages read back are exactly written records in order, everything intact before the damage is replayed, undamaged logs fully replayed, no panic, no read beyond the cap; a marker is found iff it was completely written (also when the end of the log is cut); never an unwritten marker.",
+         "Crash loses exactly the head buffer (torn sectors, lost renames, two crashes in a row outside); the 1 s ticker that reopens the head fd is not modelled; payloads do not embed byte images of valid records.",
+         "5/C14"),
  "C16": ("model_checking",
          "exhaustive state x message product on the real reactor + state machine (boundary-value fields, signature modes, wrong channels, raw byte truncation/substitution), worker subprocesses under ulimit -v",
          "11 scripted consensus states (every step of height 1, round 1, height 2) x every hostile message of the alphabet (about 1800 typed messages: each field of Vote/Proposal/BlockPart/state-channel messages at boundary values x 5 signature modes, every message kind on every wrong channel; about 9700 raw byte strings: every truncation and every single-byte substitution from 11 values of 6 valid encodings); thorough adds all ordered pairs of consensus-relevant messages. Each case goes through ConsensusReactor.Receive as the p2p layer delivers it, then whatever was queued through handleMsg, then timeouts. Oracle: no panic or process death in the state machine; invalid messages leave the RoundState digest unchanged.",
